@@ -49,7 +49,7 @@ func init() {
 		mutant{"length prefix counts the header", "codec/frame/frame.go",
 			"binary.BigEndian.PutUint32(into[:HeaderLen], uint32(payloadLen))", "binary.BigEndian.PutUint32(into[:HeaderLen], uint32(payloadLen+HeaderLen))", "C19-R2"},
 		mutant{"no room reserved for a big payload", "codec/frame/frame.go",
-			"\t\tif err == sonicerrors.ErrNeedMore {\n\t\t\tsrc.Reserve(HeaderLen + int(payloadLen))\n\t\t}\n", "", "C19-R3"},
+			"\t\tif err == sonicerrors.ErrNeedMore {\n\t\t\tsrc.Reserve(HeaderLen + int(payloadLen))\n\t\t}\n", "\t\t_ = sonicerrors.ErrNeedMore\n", "C19-R3"},
 		mutant{"room reserved only when the payload alone does not fit", "codec/frame/frame.go",
 			"\t\tif err == sonicerrors.ErrNeedMore {\n\t\t\tsrc.Reserve(HeaderLen + int(payloadLen))", "\t\tif err == sonicerrors.ErrNeedMore && src.Cap() < int(payloadLen) {\n\t\t\tsrc.Reserve(HeaderLen + int(payloadLen))", "C19-R3"},
 		mutant{"need-more decoded again without reading", "codec.go",
